@@ -43,6 +43,20 @@ Proof.
 Qed.
 Print Assumptions C01_pmtiles_find.
 
+(* pmtiles, directory too large for the root: as_directory writes a root of leaf pointers
+   (first id of each chunk, run length 0) over chunks of the sorted entries; every tile is found
+   through its pointer *)
+Theorem C01_pmtiles_two_level :
+  forall leaffn pre l o n post e t d,
+    let leaves := pre ++ (l, (o, n)) :: post in
+    runs_ok (concat (map fst leaves)) ->
+    Forall (fun x => fst x <> [] /\ (0 < snd (snd x))%N) leaves ->
+    leaffn o n = Ok l ->
+    In e l -> (0 < e_len e)%N -> (0 < e_run e)%N -> (e_id e <= t < e_id e + e_run e)%N ->
+    pm_lookup pm_arith_variant (S (S d)) leaffn (root_of leaves) t = Ok (Some e).
+Proof. exact (two_level_lookup pm_arith_variant). Qed.
+Print Assumptions C01_pmtiles_two_level.
+
 (* mbtiles: the TMS row flip applied on write and on read is an involution *)
 Theorem C01_mbtiles_flip :
   forall z x y p, coord_flip_y z x y = Ok p -> coord_flip_y z (fst p) (snd p) = Ok (x, y).
